@@ -341,11 +341,19 @@ impl<F: Float> GaussianMixtureModel<F> {
         observations: &ArrayBase<D, Ix2>,
     ) -> (Array1<F>, Array2<F>) {
         let weighted_log_prob = self.estimate_weighted_log_prob(observations);
-        let log_prob_norm = weighted_log_prob
+        // log-sum-exp with the row maximum taken out first: far from every component all
+        // `exp(weighted_log_prob)` underflow to zero and `ln(sum(exp(.)))` would be `-inf`
+        let row_max = weighted_log_prob.map_axis(Axis(1), |row| {
+            row.iter()
+                .fold(F::neg_infinity(), |m, &v| if v > m { v } else { m })
+        });
+        let shifted = weighted_log_prob - row_max.view().insert_axis(Axis(1));
+        let log_sum = shifted
             .mapv(|x| x.exp())
             .sum_axis(Axis(1))
             .mapv(|x| x.ln());
-        let log_resp = weighted_log_prob - log_prob_norm.to_owned().insert_axis(Axis(1));
+        let log_resp = shifted - log_sum.view().insert_axis(Axis(1));
+        let log_prob_norm = log_sum + row_max;
         (log_prob_norm, log_resp)
     }
 
